@@ -1,20 +1,47 @@
-//! probe (temporary)
+//! C15 harness: reading is the inverse of writing (WriteBinary / ReadBinary pairs of allsorts).
+//!
+//! The harness decides nothing.  It builds values, calls allsorts' writers and readers under
+//! `guarded`, and records what happened; expectations come from TLC (CASE lines) and verdicts
+//! from TLC (Trace_Codec) or from plain JSON equality with the observation TLC prescribed.
+//!
+//!   c15_codec writer-replay <cases.ndjson> <mismatches.ndjson> <trace.ndjson>
+//!       CASE lines of MC_BinaryWriter: a script and a fan of operations with the observation
+//!       BinaryWriter.tla prescribes for each.  Every fan operation is executed on a fresh
+//!       WriteBuffer after the script; accepted typed writes are read back with ReadScope.
+//!       Deterministic expectations are compared by JSON equality (mismatches file); the ones
+//!       that leave bytes unspecified (Dev_PartialOnErr) become WOp events for the judge.
+//!   c15_codec codec-replay <cases.ndjson> <trace.ndjson>
+//!       CASE lines of MC_TableCodec: the abstract value is built as the allsorts Rust value,
+//!       written, parsed back and projected; one Gen event per case for the judge.
+//!   c15_codec record <trace.ndjson>
+//!       every parseable table of every repository font: parse, write, parse, write; one Table
+//!       event per table (projections, bytes or digests), plus synthetic CFF tables.
 use allsorts::binary::read::ReadScope;
-use allsorts::binary::write::{WriteBinary, WriteBuffer, WriteContext};
-use allsorts::binary::{U16Be, U8};
-use allsorts::cff::CFF;
+use allsorts::binary::write::{Placeholder, WriteBinary, WriteBuffer, WriteContext};
+use allsorts::binary::{I16Be, I32Be, I64Be, U16Be, U24Be, U32Be, I8, U8};
 use allsorts::error::WriteError;
-use allsorts::tables::glyf::{BoundingBox, Glyph, Point, SimpleGlyph, SimpleGlyphFlag};
-use allsorts::tables::variable_fonts::ItemVariationStore;
-use vh::sup::{guarded, Outcome};
+use serde_json::{json, Value};
+use vh::sup::{guarded, panic_key, Outcome};
+use vh::util::{read_ndjson, NdWriter};
 
-struct Comp;
-enum Part {
+#[path = "c15_codec/kinds.rs"]
+mod kinds;
+#[path = "c15_codec/record.rs"]
+mod record;
+
+// ---- composite values for reservations -----------------------------------------------------
+
+pub enum Part {
     U8(u8),
     U16(u16),
-    Z(usize),
-    B(Vec<u8>),
+    U24(u32),
+    Zeros(usize),
+    Bytes(Vec<u8>),
 }
+
+/// A value written with several primitive calls, as IndexU16 / Dict are in cff.rs.
+pub struct Comp;
+
 impl<'a> WriteBinary<&'a Vec<Part>> for Comp {
     type Output = ();
     fn write<C: WriteContext>(ctxt: &mut C, val: &'a Vec<Part>) -> Result<(), WriteError> {
@@ -22,145 +49,255 @@ impl<'a> WriteBinary<&'a Vec<Part>> for Comp {
             match p {
                 Part::U8(v) => U8::write(ctxt, *v)?,
                 Part::U16(v) => U16Be::write(ctxt, *v)?,
-                Part::Z(n) => ctxt.write_zeros(*n)?,
-                Part::B(b) => ctxt.write_bytes(b)?,
+                Part::U24(v) => U24Be::write(ctxt, *v)?,
+                Part::Zeros(n) => ctxt.write_zeros(*n)?,
+                Part::Bytes(b) => ctxt.write_bytes(b)?,
             }
         }
         Ok(())
     }
 }
 
-fn show<T: std::fmt::Debug>(name: &str, o: Outcome<T>) {
-    match o {
-        Outcome::Returned(v) => println!("{}: {:?}", name, v),
-        Outcome::Panicked(m) => println!("{}: PANIC {}", name, m),
+enum Ph {
+    U8(Placeholder<U8, u8>),
+    U16(Placeholder<U16Be, u16>),
+    I16(Placeholder<I16Be, i16>),
+    U24(Placeholder<U24Be, u32>),
+    U32(Placeholder<U32Be, u32>),
+    Res(Placeholder<Comp, &'static Vec<Part>>),
+}
+
+struct WState {
+    buf: WriteBuffer,
+    phs: Vec<Option<(Ph, usize, String)>>, // placeholder, offset, type
+}
+
+fn jbytes(b: &[u8]) -> Value {
+    Value::Array(b.iter().map(|x| json!(*x)).collect())
+}
+
+fn vbytes(v: &Value) -> Vec<u8> {
+    v.as_array().map(|a| a.iter().map(|x| x.as_i64().unwrap_or(0) as u8).collect()).unwrap_or_default()
+}
+
+fn errname(e: &WriteError) -> String {
+    format!("{:?}", e)
+}
+
+fn parts_of(v: &Value) -> Vec<Part> {
+    v.as_array()
+        .map(|a| {
+            a.iter()
+                .map(|p| {
+                    let k = p["p"].as_str().unwrap_or("");
+                    match k {
+                        "u8" => Part::U8(p["v"].as_i64().unwrap() as u8),
+                        "u16" => Part::U16(p["v"].as_i64().unwrap() as u16),
+                        "u24" => Part::U24(p["v"].as_i64().unwrap() as u32),
+                        "z" => Part::Zeros(p["v"].as_i64().unwrap() as usize),
+                        "b" => Part::Bytes(vbytes(&p["v"])),
+                        _ => panic!("unknown part kind {}", k),
+                    }
+                })
+                .collect()
+        })
+        .unwrap_or_default()
+}
+
+/// Read `ty` back at `from` with the real reader: (value bytes, bytes left after the read).
+fn read_back(buf: &[u8], from: usize, ty: &str) -> (Vec<u8>, i64) {
+    let mut c = ReadScope::new(buf).offset(from).ctxt();
+    let v: Option<Vec<u8>> = match ty {
+        "u8" => c.read::<U8>().ok().map(|x| vec![x]),
+        "i8" => c.read::<I8>().ok().map(|x| x.to_be_bytes().to_vec()),
+        "u16" => c.read::<U16Be>().ok().map(|x| x.to_be_bytes().to_vec()),
+        "i16" => c.read::<I16Be>().ok().map(|x| x.to_be_bytes().to_vec()),
+        "u24" => c.read::<U24Be>().ok().map(|x| x.to_be_bytes()[1..].to_vec()),
+        "i32" => c.read::<I32Be>().ok().map(|x| x.to_be_bytes().to_vec()),
+        "u32" => c.read::<U32Be>().ok().map(|x| x.to_be_bytes().to_vec()),
+        "i64" => c.read::<I64Be>().ok().map(|x| x.to_be_bytes().to_vec()),
+        _ => None,
+    };
+    match v {
+        Some(b) => (b, c.scope().data().len() as i64),
+        None => (vec![], -2),
     }
+}
+
+fn u32_of(v: &Value) -> u32 {
+    let b = vbytes(v);
+    u32::from_be_bytes([b[0], b[1], b[2], b[3]])
+}
+
+fn i64_of(v: &Value) -> i64 {
+    let b = vbytes(v);
+    let mut a = [0u8; 8];
+    a.copy_from_slice(&b[..8]);
+    i64::from_be_bytes(a)
+}
+
+/// Apply one operation. Returns (res, read-back).
+fn apply(st: &mut WState, o: &Value) -> (String, Value) {
+    let op = o["op"].as_str().unwrap_or("");
+    let ty = o["ty"].as_str().unwrap_or("");
+    let k = o["k"].as_i64().unwrap_or(0) as usize;
+    let norb = json!({"v": [], "rem": -1});
+    let old = st.buf.len();
+    let r: Result<(), WriteError> = match op {
+        "W" => match ty {
+            "u8" => U8::write(&mut st.buf, o["v"].as_i64().unwrap() as u8),
+            "i8" => I8::write(&mut st.buf, o["v"].as_i64().unwrap() as i8),
+            "u16" => U16Be::write(&mut st.buf, o["v"].as_i64().unwrap() as u16),
+            "i16" => I16Be::write(&mut st.buf, o["v"].as_i64().unwrap() as i16),
+            "u24" => U24Be::write(&mut st.buf, o["v"].as_i64().unwrap() as u32),
+            "i32" => I32Be::write(&mut st.buf, o["v"].as_i64().unwrap() as i32),
+            "u32" => U32Be::write(&mut st.buf, u32_of(&o["v"])),
+            "i64" => I64Be::write(&mut st.buf, i64_of(&o["v"])),
+            _ => panic!("type {}", ty),
+        },
+        "WB" => st.buf.write_bytes(&vbytes(&o["v"])),
+        "WZ" => st.buf.write_zeros(k),
+        "PH" => {
+            let off = st.buf.len();
+            let ph = match ty {
+                "u8" => st.buf.placeholder::<U8, u8>().map(Ph::U8),
+                "u16" => st.buf.placeholder::<U16Be, u16>().map(Ph::U16),
+                "i16" => st.buf.placeholder::<I16Be, i16>().map(Ph::I16),
+                "u24" => st.buf.placeholder::<U24Be, u32>().map(Ph::U24),
+                "u32" => st.buf.placeholder::<U32Be, u32>().map(Ph::U32),
+                _ => panic!("placeholder type {}", ty),
+            };
+            ph.map(|p| st.phs.push(Some((p, off, ty.to_string()))))
+        }
+        "RS" => {
+            let off = st.buf.len();
+            st.buf
+                .reserve::<Comp, Vec<Part>>(k)
+                .map(|p| st.phs.push(Some((Ph::Res(p), off, String::new()))))
+        }
+        "WPT" | "WPC" => {
+            let (ph, off, pty) = st.phs[k - 1].take().expect("placeholder already used");
+            let r = match ph {
+                Ph::U8(p) => st.buf.write_placeholder(p, o["v"].as_i64().unwrap() as u8),
+                Ph::U16(p) => st.buf.write_placeholder(p, o["v"].as_i64().unwrap() as u16),
+                Ph::I16(p) => st.buf.write_placeholder(p, o["v"].as_i64().unwrap() as i16),
+                Ph::U24(p) => st.buf.write_placeholder(p, o["v"].as_i64().unwrap() as u32),
+                Ph::U32(p) => st.buf.write_placeholder(p, u32_of(&o["v"])),
+                Ph::Res(p) => {
+                    let parts: &'static Vec<Part> = Box::leak(Box::new(parts_of(&o["v"])));
+                    st.buf.write_placeholder(p, parts)
+                }
+            };
+            if r.is_ok() && op == "WPT" {
+                let (v, rem) = read_back(st.buf.bytes(), off, &pty);
+                return ("Ok".to_string(), json!({"v": jbytes(&v), "rem": rem}));
+            }
+            r
+        }
+        _ => panic!("unknown op {}", op),
+    };
+    match r {
+        Ok(()) => {
+            if op == "W" {
+                let (v, rem) = read_back(st.buf.bytes(), old, ty);
+                ("Ok".to_string(), json!({"v": jbytes(&v), "rem": rem}))
+            } else {
+                ("Ok".to_string(), norb)
+            }
+        }
+        Err(e) => (errname(&e), norb),
+    }
+}
+
+fn obs_of(st: &WState, res: &str) -> Value {
+    json!({"res": res, "buf": jbytes(st.buf.bytes()), "len": st.buf.bytes_written()})
+}
+
+fn writer_replay(cases: &str, mism: &str, trace: &str) {
+    let mut mw = NdWriter::create(mism);
+    let mut tw = NdWriter::create(trace);
+    let (mut n_cases, mut n_ops, mut n_rel, mut n_rb) = (0u64, 0u64, 0u64, 0u64);
+    let mut classes = std::collections::BTreeSet::new();
+    let mut evi = 0u64;
+    for (ci, case) in read_ndjson(cases).iter().enumerate() {
+        n_cases += 1;
+        let path = case["path"].as_array().cloned().unwrap_or_default();
+        let fan = case["fan"].as_array().cloned().unwrap_or_default();
+        // the script itself is checked once per case
+        let run_path = |check: Option<&mut NdWriter>| -> Result<WState, String> {
+            let mut st = WState { buf: WriteBuffer::new(), phs: Vec::new() };
+            let mut check = check;
+            for step in &path {
+                let (res, _) = apply(&mut st, &step["o"]);
+                let got = obs_of(&st, &res);
+                if got != step["exp"] {
+                    if let Some(w) = check.as_deref_mut() {
+                        w.write(&json!({"case": ci, "where": "path", "path": path, "o": step["o"], "want": step["exp"], "got": got}));
+                    }
+                    return Err("path diverged".into());
+                }
+            }
+            Ok(st)
+        };
+        match guarded(|| run_path(Some(&mut mw))) {
+            Outcome::Returned(Ok(_)) => {}
+            Outcome::Returned(Err(_)) => continue,
+            Outcome::Panicked(m) => {
+                mw.write(&json!({"case": ci, "where": "path", "path": path, "o": {"op": "path"}, "want": {"res": "Ok"},
+                                 "got": {"res": format!("Panic:{}", panic_key(&m))}}));
+                continue;
+            }
+        }
+        for f in &fan {
+            n_ops += 1;
+            let o = &f["o"];
+            let out = guarded(|| {
+                let mut st = run_path(None).expect("script replays");
+                let (res, rb) = apply(&mut st, o);
+                (obs_of(&st, &res), rb)
+            });
+            let (got, rb) = match out {
+                Outcome::Returned(x) => x,
+                Outcome::Panicked(m) => (
+                    json!({"res": format!("Panic:{}", panic_key(&m)), "buf": [], "len": -1}),
+                    json!({"v": [], "rem": -1}),
+                ),
+            };
+            classes.insert(format!("{}/{}/{}", o["op"].as_str().unwrap_or(""), o["ty"].as_str().unwrap_or(""),
+                                   got["res"].as_str().unwrap_or("").split(':').next().unwrap_or("")));
+            if rb["rem"].as_i64().unwrap_or(-1) >= 0 {
+                n_rb += 1;
+            }
+            let free = f["free"].as_array().map(|a| !a.is_empty()).unwrap_or(false);
+            if free {
+                n_rel += 1;
+                tw.write(&json!({"i": evi, "case": format!("w{}", ci), "ev": "WOp",
+                                 "a": {"path": path.iter().map(|s| s["o"].clone()).collect::<Vec<_>>(), "o": o,
+                                       "exp": f["exp"], "free": f["free"]},
+                                 "o": got}));
+                evi += 1;
+            } else if got != f["exp"] || rb != f["rb"] {
+                mw.write(&json!({"case": ci, "where": "fan", "path": path, "o": o,
+                                 "want": {"obs": f["exp"], "rb": f["rb"]}, "got": {"obs": got, "rb": rb}}));
+            }
+        }
+    }
+    let n_m = mw.n;
+    mw.finish();
+    tw.finish();
+    println!("{}", json!({"cases": n_cases, "ops_executed": n_ops, "relational_events": n_rel, "read_backs": n_rb,
+                          "mismatches": n_m, "op_type_outcome_classes": classes.len()}));
 }
 
 fn main() {
-    // 1. reserve(3), write (u16,u16)
-    show("reserve3_u16x2", guarded(|| {
-        let mut b = WriteBuffer::new();
-        let ph = b.reserve::<Comp, Vec<Part>>(3).unwrap();
-        let v = vec![Part::U16(0x0102), Part::U16(0x0304)];
-        let r = b.write_placeholder(ph, &v).map_err(|e| format!("{:?}", e));
-        (r, b.bytes().to_vec())
-    }));
-    show("reserve1_u16", guarded(|| {
-        let mut b = WriteBuffer::new();
-        let ph = b.reserve::<Comp, Vec<Part>>(1).unwrap();
-        let v = vec![Part::U16(0x0102)];
-        let r = b.write_placeholder(ph, &v).map_err(|e| format!("{:?}", e));
-        (r, b.bytes().to_vec())
-    }));
-    show("reserve4_u8_z2_u8", guarded(|| {
-        let mut b = WriteBuffer::new();
-        let ph = b.reserve::<Comp, Vec<Part>>(4).unwrap();
-        let v = vec![Part::U8(7), Part::Z(2), Part::U8(9)];
-        let r = b.write_placeholder(ph, &v).map_err(|e| format!("{:?}", e));
-        (r, b.bytes().to_vec())
-    }));
-    show("reserve4_b3_b3", guarded(|| {
-        let mut b = WriteBuffer::new();
-        let ph = b.reserve::<Comp, Vec<Part>>(4).unwrap();
-        let v = vec![Part::B(vec![1, 2, 3]), Part::B(vec![4, 5, 6])];
-        let r = b.write_placeholder(ph, &v).map_err(|e| format!("{:?}", e));
-        (r, b.bytes().to_vec())
-    }));
-    // 2. glyph with 32768 contours
-    show("glyph_32768_contours", guarded(|| {
-        let n = 32768usize;
-        let g = SimpleGlyph {
-            bounding_box: BoundingBox { x_min: 0, x_max: 0, y_min: 0, y_max: 0 },
-            end_pts_of_contours: (0..n).map(|i| i as u16).collect(),
-            instructions: &[],
-            coordinates: (0..n).map(|_| (SimpleGlyphFlag::ON_CURVE_POINT, Point(0, 0))).collect(),
-            phantom_points: None,
-        };
-        let mut b = WriteBuffer::new();
-        let r = Glyph::write(&mut b, Glyph::Simple(g)).map_err(|e| format!("{:?}", e));
-        (r, b.bytes()[..4].to_vec(), b.len())
-    }));
-    // 3. IVS round trip
-    show("ivs", guarded(|| {
-        // format=1, regionListOffset=12 (u32), count=1, offsets[1] = 12+4+6=22
-        let mut d: Vec<u8> = vec![0, 1, 0, 0, 0, 12, 0, 1, 0, 0, 0, 22];
-        // region list: axisCount=1, regionCount=1, region: (start,peak,end)
-        d.extend_from_slice(&[0, 1, 0, 1, 0, 0, 0x40, 0, 0x40, 0]);
-        // item variation data: itemCount=1 wordDeltaCount=0 regionIndexCount=1 regionIndexes=[0] deltas: 1 byte
-        d.extend_from_slice(&[0, 1, 0, 0, 0, 1, 0, 0, 5]);
-        let ivs = ReadScope::new(&d).read::<ItemVariationStore<'_>>().map_err(|e| format!("{:?}", e))?;
-        let mut b = WriteBuffer::new();
-        ItemVariationStore::write(&mut b, &ivs).map_err(|e| format!("{:?}", e))?;
-        let out = b.bytes().to_vec();
-        let back = ReadScope::new(&out).read::<ItemVariationStore<'_>>().map(|_| "ok").map_err(|e| format!("{:?}", e));
-        Ok::<_, String>((d, out, back))
-    }));
-    // 4. CFF with explicit `0 charset`
-    for explicit in [false, true] {
-        show(&format!("cff_charset0_explicit={}", explicit), guarded(|| {
-            let d = mini_cff(explicit);
-            let cff = ReadScope::new(&d).read::<CFF<'_>>().map_err(|e| format!("read {:?}", e))?;
-            let mut b = WriteBuffer::new();
-            CFF::write(&mut b, &cff).map_err(|e| format!("write {:?}", e))?;
-            let out = b.bytes().to_vec();
-            let back = ReadScope::new(&out).read::<CFF<'_>>().map(|_| "ok").map_err(|e| format!("{:?}", e));
-            Ok::<_, String>((d.len(), out.len(), back))
-        }));
-    }
-}
-
-fn index(objs: &[Vec<u8>]) -> Vec<u8> {
-    let mut v = vec![(objs.len() >> 8) as u8, objs.len() as u8];
-    if objs.is_empty() {
-        return v;
-    }
-    v.push(1);
-    let mut off = 1u8;
-    v.push(off);
-    for o in objs {
-        off += o.len() as u8;
-        v.push(off);
-    }
-    for o in objs {
-        v.extend_from_slice(o);
-    }
-    v
-}
-
-fn int5(v: i32) -> Vec<u8> {
-    let mut o = vec![29];
-    o.extend_from_slice(&v.to_be_bytes());
-    o
-}
-
-fn mini_cff(explicit_charset0: bool) -> Vec<u8> {
-    // layout: header, name INDEX, top dict INDEX, string INDEX, gsubr INDEX, charstrings INDEX, private dict
-    let name = index(&[b"A".to_vec()]);
-    let strings = index(&[]);
-    let gsubr = index(&[]);
-    let cs = index(&[vec![14]]);
-    let mk_top = |cs_off: i32, priv_off: i32| {
-        let mut t = Vec::new();
-        if explicit_charset0 {
-            t.extend_from_slice(&[139, 15]); // 0 charset
+    let args: Vec<String> = std::env::args().collect();
+    match args.get(1).map(|s| s.as_str()) {
+        Some("writer-replay") => writer_replay(&args[2], &args[3], &args[4]),
+        Some("codec-replay") => kinds::codec_replay(&args[2], &args[3]),
+        Some("record") => record::record(&args[2]),
+        _ => {
+            eprintln!("usage: c15_codec writer-replay|codec-replay|record ...");
+            std::process::exit(2);
         }
-        t.extend(int5(cs_off));
-        t.push(17);
-        t.extend(int5(0));
-        t.extend(int5(priv_off));
-        t.push(18);
-        t
-    };
-    let top0 = index(&[mk_top(0, 0)]);
-    let cs_off = 4 + name.len() + top0.len() + strings.len() + gsubr.len();
-    let priv_off = cs_off + cs.len();
-    let top = index(&[mk_top(cs_off as i32, priv_off as i32)]);
-    let mut d = vec![1, 0, 4, 1];
-    d.extend(name);
-    d.extend(top);
-    d.extend(strings);
-    d.extend(gsubr);
-    d.extend(cs);
-    d
+    }
 }
